@@ -66,7 +66,8 @@ func main() {
 	}
 	exit := 0
 	for _, id := range ids {
-		code := runOne(w, id, *tier, *target, *verif, *noEvid)
+		code := runOne(w, id, *tier, *target, *verif, *noEvid, start)
+		start = time.Now()
 		if code > exit {
 			exit = code
 		}
@@ -74,9 +75,9 @@ func main() {
 	os.Exit(exit)
 }
 
-func runOne(w *World, id, tier, target, verif string, noEvid bool) (code int) {
+func runOne(w *World, id, tier, target, verif string, noEvid bool, start time.Time) (code int) {
 	c := newCheck(id)
-	o := runOpts{verifDir: verif, tier: tier, target: target, noEvid: noEvid, start: time.Now(),
+	o := runOpts{verifDir: verif, tier: tier, target: target, noEvid: noEvid, start: start,
 		cmd: fmt.Sprintf("./run.sh %s %s", id, tier)}
 	defer func() {
 		if r := recover(); r != nil {
